@@ -23,6 +23,9 @@
      addr.from_hash hash                  -> prefix;hash;string;hash hex
      addr.set_chain text prefix           -> prefix;hash;string;hash hex
      addr.chain_named hash name           -> set_chain_params(ChainParams::name()): prefix;hash;string;hash hex;same as _impl
+     key.history key steps                -> observations along a call history on one PrivateKey object
+     pub.history b steps                  -> ... on one PublicKey object
+     addr.history mode start steps        -> ... on one P2PKHAddress object (mode s: from_string, h: from_pubkey_hash)
      addr.locking prefix hash             -> script bytes
      addr.unlocking prefix hash pub der flag -> script bytes *)
 From BSV Require Import Base.Hex.
@@ -273,6 +276,175 @@ Definition run_addr_unlocking (p : byte) (h bs der : bytes) (fl : byte) : string
              | None => "ERR" end) "-".
 
 (* ------------------------------------------------------------------ *)
+(* Call histories on ONE object.  The model functions take values, so every observation is a function of the
+   current field values; the specification column is computed from the tracked field values alone (compression
+   flag; encoding form; prefix byte), with the Prim references. *)
+Definition sjoin (l : list string) : string := join ";" l.
+Definition o2s (r : outcome string) : string := match r with Ok s => s | Err => "E" | Panic => "P" end.
+Fixpoint all_in (allowed s : string) : bool :=
+  match s with
+  | EmptyString => true
+  | String c r => (match index_of c allowed 0%N with Some _ => true | None => false end) && all_in allowed r
+  end.
+
+(* PrivateKey: c/u compress_public_key(true/false), l clone, W re-import own WIF;
+   p to_public_key, w to_wif, g get_point, f from_private_key, a address string, k locking script, h to_hex *)
+Fixpoint key_hist (P : point) (k : privkey) (steps : string) : outcome (list string) :=
+  match steps with
+  | EmptyString => Ok []
+  | String ch r =>
+      let C := curve_memo P in
+      let pub_s (pk : pubkey_t) := hex_of_bytes (pk_point pk) +++ "," +++ flag (pk_compressed pk) in
+      let addr := do pk <- to_public_key C k; pub_to_address pk in
+      let obs (s : string) := do rest <- key_hist P k r; Ok (s :: rest) in
+      match ch with
+      | "c"%char => key_hist P (compress_public_key k true) r
+      | "u"%char => key_hist P (compress_public_key k false) r
+      | "l"%char => key_hist P k r
+      | "W"%char => do k' <- from_wif (to_wif k); key_hist P k' r
+      | "p"%char => obs (o2s (omap pub_s (to_public_key C k)))
+      | "w"%char => obs (to_wif k)
+      | "g"%char => obs (hex_of_bytes (pk_point (pub_from_private C k)))
+      | "f"%char => obs (pub_s (pub_from_private C k))
+      | "a"%char => obs (o2s (omap addr_to_string addr))
+      | "k"%char => obs (o2s (do a <- addr; omap (fun s => hex_of_bytes (to_bytes s)) (addr_locking_script a)))
+      | _ => obs (priv_to_hex k)
+      end
+  end.
+
+Fixpoint key_hist_spec (P : point) (kb : bytes) (c : bool) (steps : string) : list string :=
+  match steps with
+  | EmptyString => []
+  | String ch r =>
+      let enc := sec1_encode c P in
+      let h := hash160_ref enc in
+      match ch with
+      | "c"%char => key_hist_spec P kb true r
+      | "u"%char => key_hist_spec P kb false r
+      | "l"%char => key_hist_spec P kb c r
+      | "W"%char => key_hist_spec P kb c r
+      | "p"%char => (hex_of_bytes enc +++ "," +++ flag c) :: key_hist_spec P kb c r
+      | "w"%char => b58check_encode sha256d_ref (x80 :: kb ++ (if c then [x01] else [])) :: key_hist_spec P kb c r
+      | "g"%char => hex_of_bytes enc :: key_hist_spec P kb c r
+      | "f"%char => (hex_of_bytes enc +++ "," +++ flag c) :: key_hist_spec P kb c r
+      | "a"%char => spec_addr_string x00 h :: key_hist_spec P kb c r
+      | "k"%char => hex_of_bytes (p2pkh_bytes h) :: key_hist_spec P kb c r
+      | _ => hex_of_bytes kb :: key_hist_spec P kb c r
+      end
+  end.
+
+Definition run_key_history (kb : bytes) (steps : string) : string :=
+  if negb (all_in "culWpwgfakh" steps) then "BADARG" else
+  match priv_from_bytes kb with
+  | Ok k0 =>
+      let P := pubkey_fast (sk_scalar k0) in
+      out3 (show_o sjoin (key_hist P k0 steps)) ("OK:" +++ sjoin (key_hist_spec P kb true steps)) "-"
+  | Err => out3 "ERR" "ERR" "-"
+  | Panic => out3 "PANIC" "ERR" "-"
+  end.
+
+(* PublicKey: c to_compressed, d to_decompressed, l clone; b to_bytes+flag, x to_hex, a address string, h HASH160 *)
+Fixpoint pub_hist (q : pubkey_t) (steps : string) : outcome (list string) :=
+  match steps with
+  | EmptyString => Ok []
+  | String ch r =>
+      let obs (s : string) := do rest <- pub_hist q r; Ok (s :: rest) in
+      match ch with
+      | "c"%char => do q' <- pub_to_compressed q; pub_hist q' r
+      | "d"%char => do q' <- pub_to_decompressed curve_fast q; pub_hist q' r
+      | "l"%char => pub_hist q r
+      | "b"%char => obs (hex_of_bytes (pk_point q) +++ "," +++ flag (pk_compressed q))
+      | "x"%char => obs (hex_of_bytes (pk_point q))
+      | "a"%char => obs (o2s (omap addr_to_string (pub_to_address q)))
+      | _ => obs (o2s (omap (fun a => hex_of_bytes (a_hash a)) (pub_to_address q)))
+      end
+  end.
+
+Fixpoint pub_hist_spec (P : point) (c : bool) (steps : string) : list string :=
+  match steps with
+  | EmptyString => []
+  | String ch r =>
+      let enc := sec1_encode c P in
+      match ch with
+      | "c"%char => pub_hist_spec P true r
+      | "d"%char => pub_hist_spec P false r
+      | "l"%char => pub_hist_spec P c r
+      | "b"%char => (hex_of_bytes enc +++ "," +++ flag c) :: pub_hist_spec P c r
+      | "x"%char => hex_of_bytes enc :: pub_hist_spec P c r
+      | "a"%char => spec_addr_string x00 (hash160_ref enc) :: pub_hist_spec P c r
+      | _ => hex_of_bytes (hash160_ref enc) :: pub_hist_spec P c r
+      end
+  end.
+
+Definition run_pub_history (bs : bytes) (steps : string) : string :=
+  if negb (all_in "cdlbxah" steps) then "BADARG" else
+  out3 (show_o sjoin (do q <- pub_from_bytes curve_fast bs; pub_hist q steps))
+       (match sec1_decode_fast bs with
+        | Some P => "OK:" +++ sjoin (pub_hist_spec P (Nat.eqb (length bs) 33) steps)
+        | None => "ERR" end) "-".
+
+(* P2PKHAddress: sXX set_chain_params(prefix), m/t/r/n named chains, l clone, f re-parse own string;
+   o prefix,to_string; k locking script; h hash hex *)
+Definition addr_tok_prefix (t : string) : option (option byte) :=      (* Some (Some p): re-prefix; Some None: other token *)
+  match t with
+  | "m" => Some (Some x00) | "t" => Some (Some x6f) | "r" => Some (Some x6f) | "n" => Some (Some x6f)
+  | "l" => Some None | "f" => Some None | "o" => Some None | "k" => Some None | "h" => Some None
+  | String "s" hh => match bytes_of_hex hh with Some [b] => Some (Some b) | _ => None end
+  | _ => None
+  end.
+
+Fixpoint addr_hist (a : address) (toks : list string) : outcome (list string) :=
+  match toks with
+  | [] => Ok []
+  | t :: r =>
+      let obs (s : string) := do rest <- addr_hist a r; Ok (s :: rest) in
+      match addr_tok_prefix t with
+      | Some (Some p) => do a' <- addr_set_chain a p; addr_hist a' r
+      | _ =>
+          match t with
+          | "f" => do a' <- addr_from_string (addr_to_string a); addr_hist a' r
+          | "o" => obs ((if bytes_eqb (a_checksum a) (checksum4 (a_prefix a :: a_hash a)) then hex_of_bytes [a_prefix a] else "xx")
+                        +++ "," +++ addr_to_string a)
+          | "k" => obs (o2s (omap (fun s => hex_of_bytes (to_bytes s)) (addr_locking_script a)))
+          | "h" => obs (hex_of_bytes (a_hash a))
+          | _ => addr_hist a r
+          end
+      end
+  end.
+
+Fixpoint addr_hist_spec (p : byte) (h : bytes) (toks : list string) : list string :=
+  match toks with
+  | [] => []
+  | t :: r =>
+      match addr_tok_prefix t with
+      | Some (Some p') => addr_hist_spec p' h r
+      | _ =>
+          match t with
+          | "o" => (hex_of_bytes [p] +++ "," +++ spec_addr_string p h) :: addr_hist_spec p h r
+          | "k" => hex_of_bytes (p2pkh_bytes h) :: addr_hist_spec p h r
+          | "h" => hex_of_bytes h :: addr_hist_spec p h r
+          | _ => addr_hist_spec p h r
+          end
+      end
+  end.
+
+Definition run_addr_history (mode : string) (start : bytes) (steps : string) : string :=
+  let toks := match steps with EmptyString => [] | _ => split "." steps end in
+  if negb (forallb (fun t => match addr_tok_prefix t with Some _ => true | None => false end) toks) then "BADARG" else
+  match mode with
+  | "s" =>
+      let s := text_of start in
+      out3 (show_o sjoin (do a <- addr_from_string s; addr_hist a toks))
+           (match b58check_decode sha256d_ref s with
+            | Some (p :: h) => if Nat.eqb (length h) 20 then "OK:" +++ sjoin (addr_hist_spec p h toks) else "ERR"
+            | _ => "ERR" end) "-"
+  | "h" =>
+      out3 (show_o sjoin (do a <- addr_from_pubkey_hash start; addr_hist a toks))
+           (if Nat.eqb (length start) 20 then "OK:" +++ sjoin (addr_hist_spec x00 start toks) else "ERR") "-"
+  | _ => "BADARG"
+  end.
+
+(* ------------------------------------------------------------------ *)
 Definition arg_flag (s : string) : option bool :=
   match s with "0" => Some false | "1" => Some true | _ => None end.
 Definition arg_byte (s : string) : option byte :=
@@ -307,6 +479,10 @@ Definition run (op : string) (args : list string) : string :=
       match expand t, arg_byte p with Some tb, Some pb => run_addr_set_chain tb pb | _, _ => "BADARG" end
   | "addr.chain_named", [h; name] =>
       match expand h, chain_byte name with Some hb, Some pb => run_chain_named hb pb | _, _ => "BADARG" end
+  | "key.history", [k; st] => match expand k with Some kb => run_key_history kb st | None => "BADARG" end
+  | "pub.history", [b; st] => match expand b with Some bs => run_pub_history bs st | None => "BADARG" end
+  | "addr.history", [mode; start; st] =>
+      match expand start with Some sb => run_addr_history mode sb st | None => "BADARG" end
   | "addr.locking", [p; h] =>
       match arg_byte p, expand h with Some pb, Some hb => run_addr_locking pb hb | _, _ => "BADARG" end
   | "addr.unlocking", [p; h; b; d; f] =>
